@@ -61,6 +61,8 @@ func NewSys(meta Meta, seed int64, init any) (Sys, error) {
 		return newRelaygenSys(meta, seed, init)
 	case "codec":
 		return newCodecSys(meta, seed, init)
+	case "reaper":
+		return newReaperSys(meta, seed)
 	case "tcp":
 		return newTCPSys(meta, seed, init)
 	case "clienttxn":
@@ -284,20 +286,26 @@ type World struct {
 	streams          map[string]*MemStream // model clients s1, s2: a control connection to the stream listener
 	streamRest       map[string][]byte     // bytes of an incomplete frame read from that connection
 	lisS             *MemListener
-	peerIP           map[string]net.IP
-	peerPort         map[int]int
-	peers            map[string]*MemConn // key "A/1"
-	peerKey          map[string]peerKeyT
-	relayOwner       map[string]string // relay addr -> model client (from Allocate successes)
-	relayOf          map[string]*net.UDPAddr
-	nonce            string
-	staleNonce       string
-	noRetry          bool
-	down             bool
-	gate             func(point string) // Engine G: call-outs park here
-	evSeen           int
-	step             int
-	gen              *memGen
+	streamMu         sync.Mutex
+	// real mode (Meta.Extra["real"] = "yes", real-time drivers only): the IPv4 datagram listener and its clients
+	// c1..c3 are kernel UDP sockets on the loopback interface, so that code paths that specialise on
+	// *net.UDPConn are exercised; relay sockets, peers, the IPv6 and the stream listener stay in memory
+	real4       *net.UDPConn
+	realClients map[string]*net.UDPConn
+	peerIP      map[string]net.IP
+	peerPort    map[int]int
+	peers       map[string]*MemConn // key "A/1"
+	peerKey     map[string]peerKeyT
+	relayOwner  map[string]string // relay addr -> model client (from Allocate successes)
+	relayOf     map[string]*net.UDPAddr
+	nonce       string
+	staleNonce  string
+	noRetry     bool
+	down        bool
+	gate        func(point string) // Engine G: call-outs park here
+	evSeen      int
+	step        int
+	gen         *memGen
 
 	evMu   sync.Mutex
 	Events []Event
@@ -347,6 +355,9 @@ type memGen struct {
 	ip6  net.IP
 	// Conns is every relay socket ever handed out, by address.
 	Conns map[string]*MemConn
+	// gate: relay sockets report their close to the reader only when released (reaper walks); order of creation
+	gate  bool
+	Order []*MemConn
 }
 
 func (g *memGen) Validate() error { return nil }
@@ -380,6 +391,10 @@ func (g *memGen) AllocatePacketConn(c turn.AllocateListenerConfig) (net.PacketCo
 		return nil, nil, err
 	}
 	g.Conns[key(a)] = conn
+	if g.gate {
+		conn.ErrGate = make(chan struct{})
+		g.Order = append(g.Order, conn)
+	}
 
 	return conn, a, nil
 }
@@ -422,7 +437,20 @@ func NewWorld(meta Meta, seed int64) (*World, error) {
 	}
 	srv4 := &net.UDPAddr{IP: net.IPv4(10, 0, 0, 1).To4(), Port: 3478}
 	srv6 := &net.UDPAddr{IP: net.ParseIP("fd00::1"), Port: 3478}
-	w.listen4 = w.Net.MustListen(srv4)
+	realMode := meta.Extra["real"] == "yes"
+	if realMode {
+		rc, err := net.ListenUDP("udp4", &net.UDPAddr{IP: net.IPv4(127, 0, 0, 1), Port: 0})
+		if err != nil {
+			return nil, err
+		}
+		w.real4 = rc
+		ra, _ := rc.LocalAddr().(*net.UDPAddr)
+		srv4 = &net.UDPAddr{IP: ra.IP.To4(), Port: ra.Port}
+		w.listen4 = &MemConn{addr: srv4}
+		w.realClients = map[string]*net.UDPConn{}
+	} else {
+		w.listen4 = w.Net.MustListen(srv4)
+	}
 	w.listen6 = w.Net.MustListen(srv6)
 	w.gen = &memGen{w: w, ip4: net.IPv4(10, 0, 0, 1).To4(), ip6: net.ParseIP("fd00::1"), Conns: map[string]*MemConn{}}
 
@@ -435,6 +463,9 @@ func NewWorld(meta Meta, seed int64) (*World, error) {
 		case strings.HasPrefix(c, "s"):
 			// a stream client: s1 has the IP and port of c1 (the 5-tuples differ in the transport only)
 			a = &net.UDPAddr{IP: net.IPv4(10, 0, 0, 11).To4(), Port: 40001}
+			if c1 := w.clientAddr["c1"]; c1 != nil {
+				a = &net.UDPAddr{IP: c1.IP, Port: c1.Port}
+			}
 			if c != "s1" {
 				a = &net.UDPAddr{IP: net.IPv4(10, 0, 0, 12).To4(), Port: 40002}
 			}
@@ -454,6 +485,21 @@ func NewWorld(meta Meta, seed int64) (*World, error) {
 		}
 		if w.listenAddr[c] == nil {
 			w.listenAddr[c] = srv4
+			if realMode {
+				ip := net.IPv4(127, 0, 0, 1)
+				if c != "c1" && c != "c2" {
+					ip = net.IPv4(127, 0, 0, 2) // another source IP on the loopback interface
+				}
+				rc, err := net.ListenUDP("udp4", &net.UDPAddr{IP: ip, Port: 0})
+				if err != nil {
+					return nil, err
+				}
+				la, _ := rc.LocalAddr().(*net.UDPAddr)
+				w.realClients[c] = rc
+				w.clientAddr[c] = &net.UDPAddr{IP: la.IP.To4(), Port: la.Port}
+
+				continue
+			}
 			if w.Var.ClientV6 {
 				a.IP = mapped(a.IP)
 			}
@@ -555,6 +601,9 @@ func NewWorld(meta Meta, seed int64) (*World, error) {
 		cfg.PermissionTimeout = time.Duration(meta.PermTO) * w.Tick
 		cfg.ChannelBindTimeout = time.Duration(meta.ChanTO) * w.Tick
 	}
+	if realMode {
+		cfg.PacketConnConfigs[0].PacketConn = w.real4
+	}
 	for _, c := range names {
 		if strings.HasPrefix(c, "s") && w.lisS == nil {
 			lis, err := w.Net.ListenTCP(&net.TCPAddr{IP: srv4.IP, Port: srv4.Port})
@@ -593,8 +642,10 @@ func (w *World) dialStream(c string) error {
 	if err != nil {
 		return err
 	}
+	w.streamMu.Lock()
 	w.streams[c] = st
 	w.streamRest[c] = nil
+	w.streamMu.Unlock()
 
 	return nil
 }
@@ -602,9 +653,23 @@ func (w *World) dialStream(c string) error {
 // drainClient returns what client c received since the last call: datagrams, or the complete frames of
 // its control connection (a STUN message is 20 bytes + its length, ChannelData 4 + its length padded to 4).
 func (w *World) drainClient(c string) []Pkt {
+	if rc := w.realClients[c]; rc != nil {
+		var out []Pkt
+		buf := make([]byte, 70000)
+		for {
+			_ = rc.SetReadDeadline(time.Now().Add(300 * time.Microsecond))
+			n, from, err := rc.ReadFromUDP(buf)
+			if err != nil {
+				return out
+			}
+			out = append(out, Pkt{Data: append([]byte{}, buf[:n]...), From: &net.UDPAddr{IP: from.IP.To4(), Port: from.Port}})
+		}
+	}
 	if !w.isStream(c) {
 		return w.clients[c].Drain()
 	}
+	w.streamMu.Lock()
+	defer w.streamMu.Unlock()
 	st := w.streams[c]
 	if st == nil {
 		return nil
@@ -635,6 +700,12 @@ func (w *World) Close() {
 	}
 	for _, st := range w.streams {
 		_ = st.Close()
+	}
+	for _, rc := range w.realClients {
+		_ = rc.Close()
+	}
+	if w.real4 != nil {
+		_ = w.real4.Close()
 	}
 	if w.lisS != nil {
 		_ = w.lisS.Close()
@@ -923,6 +994,11 @@ func (w *World) sendFromClient(c string, raw []byte) {
 
 		return
 	}
+	if rc := w.realClients[c]; rc != nil {
+		_, _ = rc.WriteToUDP(raw, w.listenAddr[c])
+
+		return
+	}
 	_, _ = w.clients[c].WriteTo(raw, w.listenAddr[c])
 }
 
@@ -959,6 +1035,34 @@ func (w *World) ensureNonce(wait func()) error {
 }
 
 func (w *World) mintNonce(wait func()) error {
+	if w.real4 != nil { // real mode: the throw-away endpoint is a kernel socket too
+		rc, err := net.ListenUDP("udp4", &net.UDPAddr{IP: net.IPv4(127, 0, 0, 1), Port: 0})
+		if err != nil {
+			return err
+		}
+		defer rc.Close() //nolint:errcheck
+		m := stun.MustBuild(stun.TransactionID, stun.NewType(stun.MethodAllocate, stun.ClassRequest), proto.RequestedTransport{Protocol: proto.ProtoUDP})
+		if _, err := rc.WriteToUDP(m.Raw, w.listen4.addr); err != nil {
+			return err
+		}
+		buf := make([]byte, 2000)
+		_ = rc.SetReadDeadline(time.Now().Add(2 * time.Second))
+		n, _, err := rc.ReadFromUDP(buf)
+		if err != nil {
+			return err
+		}
+		r := &stun.Message{Raw: buf[:n]}
+		if err := r.Decode(); err != nil {
+			return err
+		}
+		var nn stun.Nonce
+		if err := nn.GetFrom(r); err != nil {
+			return err
+		}
+		w.nonce = nn.String()
+
+		return nil
+	}
 	probe := w.Net.MustListen(&net.UDPAddr{IP: net.IPv4(10, 9, 9, 9).To4(), Port: 9})
 	defer probe.Close() //nolint:errcheck
 	m := stun.MustBuild(stun.TransactionID, stun.NewType(stun.MethodAllocate, stun.ClassRequest),
@@ -1490,6 +1594,7 @@ func (w *World) badCred(c, m, k string) ([]byte, error) {
 	nonce := w.nonce
 	useUser, useRealm, useNonce, useMI := true, true, true, true
 	miUser := user
+	presentedRealm := realm
 	switch k {
 	case "noMI":
 		useUser, useRealm, useNonce, useMI = false, false, false, false
@@ -1499,6 +1604,10 @@ func (w *World) badCred(c, m, k string) ([]byte, error) {
 		useUser = false
 	case "noRealm":
 		useRealm = false
+	case "otherRealm":
+		// REALM names another realm while MESSAGE-INTEGRITY is keyed for the server's realm: the operator's handler
+		// is asked for the key of (username, PRESENTED realm), which is not the key this request was signed with
+		presentedRealm = "other.example"
 	case "ghostUser":
 		user, miUser, pw = "ghost", "ghost", "pw-ghost"
 	case "wrongPw":
@@ -1537,7 +1646,7 @@ func (w *World) badCred(c, m, k string) ([]byte, error) {
 		s = append(s, stun.NewUsername(user))
 	}
 	if useRealm {
-		s = append(s, stun.NewRealm(realm))
+		s = append(s, stun.NewRealm(presentedRealm))
 	}
 	if useNonce {
 		s = append(s, stun.NewNonce(nonce))
